@@ -30,6 +30,7 @@ from sx.kernel import Enum, Obj, Ok, Err, Some, NONE, SStr, SVec, Ch
 from sx.sym import And, Or, Not
 
 XML_NS = "http://www.w3.org/XML/1998/namespace"
+TV_LIMIT = 40      # concrete representatives per shape (one per feasible path)
 
 
 def s_eq(a, b):
@@ -53,6 +54,51 @@ def mk_name(tag, shape):
     s, c = K.sym_str(tag, shape)
     # prefixes / local parts are names: keep them away from the literal 'xmlns' machinery by being 1 character long
     return s, c
+
+
+# ---- translator validation: one concrete representative per feasible model path ---------------------------------------
+
+def tv_models(I, paths, limit):
+    """-> [(model, path)] for at most `limit` paths that are satisfiable together with the harness assumptions, and the query count"""
+    res, n = [], 0
+    for p in paths:
+        if len(res) >= limit:
+            break
+        s = z3.Solver()
+        s.set("timeout", 20000)
+        for c in I.base:
+            s.add(c)
+        for c in p["pc"]:
+            s.add(c)
+        n += 1
+        if s.check() == z3.sat:
+            res.append((s.model(), p))
+    return res, n
+
+
+def mbool(mdl, x):
+    if isinstance(x, bool):
+        return x
+    return z3.is_true(mdl.eval(sym.to_z3(x), model_completion=True))
+
+
+def mopt(mdl, e):
+    """Option<String> value of the model -> str | None"""
+    if isinstance(e, Enum):
+        return K.model_str(mdl, e.fields[0]) if e.variant == "Some" else None
+    return K.model_str(mdl, e)
+
+
+def tv_outcome(mdl, p, value_of):
+    """the model's prediction on path p under mdl: {'kind': 'panic'} | {'kind': 'err'} | {'kind': 'ok', 'value': value_of(payload)}"""
+    if p["kind"] == "panic":
+        return {"kind": "panic", "msg": str(p.get("msg"))[:100]}
+    r = p["value"]
+    if isinstance(r, Enum) and r.variant == "Err":
+        return {"kind": "err"}
+    if isinstance(r, Enum) and r.variant == "Ok":
+        return {"kind": "ok", "value": value_of(r.fields[0])}
+    return {"kind": "ok", "value": value_of(r)}
 
 
 # ---- expanded names -------------------------------------------------------------------------------------------
@@ -134,6 +180,12 @@ def work_expanded(job):
         verdict, info, nq = K.decide(I, paths, post, timeout_s)
         out["queries"] = nq + I.feas_queries
         out["fns"] = K.fn_table(I)
+        ms, nq2 = tv_models(I, paths, TV_LIMIT)
+        out["queries"] += nq2
+        out["tv"] = [{"what": "expanded", "node": kind, "local": K.model_str(m, local), "prefix": K.model_str(m, pfx) if pfx is not None else None,
+                      "bindings": [(K.model_str(m, bp[i]) if bp[i] is not None else None, K.model_str(m, bu[i])) for i in range(len(binds))],
+                      "pred": tv_outcome(m, q, lambda v: None if v.variant == "None" else [K.model_str(m, v.fields[0][0]), mopt(m, v.fields[0][1]), mopt(m, v.fields[0][2])])}
+                     for m, q in ms]
         if verdict == "sat":
             mdl, p = info
             out["status"] = "sat"
@@ -234,6 +286,13 @@ def work_nametest(job):
         verdict, info, nq = K.decide(I, paths, post, timeout_s)
         out["queries"] = nq + I.feas_queries
         out["fns"] = K.fn_table(I)
+        ms, nq2 = tv_models(I, paths, TV_LIMIT)
+        out["queries"] += nq2
+        out["tv"] = [{"what": "name-test", "node_local": K.model_str(m, nl), "node_uri": K.model_str(m, nu) if nu is not None else None,
+                      "test_local": K.model_str(m, tl), "test_prefix": K.model_str(m, tp) if tp is not None else None,
+                      "bindings": [(K.model_str(m, bp[i]), K.model_str(m, bu[i])) for i in range(len(binds))],
+                      "pred": tv_outcome(m, q, lambda v: mbool(m, v))}
+                     for m, q in ms]
         if verdict == "sat":
             mdl, p = info
             out["status"] = "sat"
@@ -361,6 +420,17 @@ def work_scope(job):
         verdict, info, nq = K.decide(I, paths, post, timeout_s)
         out["queries"] = nq + I.feas_queries
         out["fns"] = K.fn_table(I)
+        ms, nq2 = tv_models(I, paths, TV_LIMIT)
+        out["queries"] += nq2
+
+        def scope_value(m):
+            def f(v):
+                items = v.fields["items"] if isinstance(v, Obj) else v
+                return [[mopt(m, ns.fields["prefix"]), K.model_str(m, ns.fields["namespace_name"])] for ns in items]
+            return f
+        out["tv"] = [{"what": "scope", "levels": [[(K.model_str(m, p) if p is not None else None, K.model_str(m, u)) for p, u in row] for row in decl],
+                      "pred": tv_outcome(m, q, scope_value(m))}
+                     for m, q in ms]
         if verdict == "sat":
             mdl, p_ = info
             out["status"] = "sat"
@@ -442,6 +512,11 @@ def work_bindings(job):
         verdict, info, nq = K.decide(I, paths, post, timeout_s)
         out["queries"] = nq + I.feas_queries
         out["fns"] = K.fn_table(I)
+        ms, nq2 = tv_models(I, paths, TV_LIMIT)
+        out["queries"] += nq2
+        out["tv"] = [{"what": "bindings", "ops": [(op, K.model_str(m, ps[i]), K.model_str(m, us[i])) for i, op in enumerate(ops)], "query": K.model_str(m, q),
+                      "pred": tv_outcome(m, pth, lambda v: mopt(m, v))}
+                     for m, pth in ms]
         if verdict == "sat":
             mdl, p_ = info
             out["status"] = "sat"
@@ -479,25 +554,39 @@ PROBES = {
 }
 
 
-def render_scope(levels):
-    """witness levels [[(prefix|None, uri), ..], ..] (outermost first) -> (document, expected sorted in-scope list)"""
-    names = {}
+class Alias:
+    """injective renaming of the model's one-character strings into printable names, per kind (l local part, p prefix, u URI);
+    the kernel compares names character by character only, so a renaming that preserves equality preserves every path"""
 
-    def alias(x, kind):
-        if x == "":
-            return ""
-        return names.setdefault((kind, x), "%s%d" % (kind, len([k for k in names if k[0] == kind])))
+    def __init__(self):
+        self.m = {}
+
+    def __call__(self, kind, x):
+        if x is None or x == "":
+            return x
+        return self.m.setdefault((kind, x), "%s%d" % (kind, len([k for k in self.m if k[0] == kind])))
+
+    def out(self, kind, x):
+        """a string the code returned: one of the inputs (renamed) or a literal of the code (xmlns, xml, the XML namespace)"""
+        if x is None:
+            return None
+        return self.m.get((kind, x), x)
+
+
+def render_scope(levels, al=None):
+    """witness levels [[(prefix|None, uri), ..], ..] (outermost first) -> (document, expected sorted in-scope list)"""
+    al = al or Alias()
     doc_open, doc_close = "", ""
     scope = {}
     for i, row in enumerate(levels):
         attrs = ""
         for p, u in row:
-            ua = alias(u, "u")
+            ua = al("u", u)
             if p is None:
                 attrs += " xmlns='%s'" % ua
                 scope["xmlns"] = ua
             else:
-                pa = alias(p, "p")
+                pa = al("p", p)
                 attrs += " xmlns:%s='%s'" % (pa, ua)
                 scope[pa] = ua
         doc_open += "<e%d%s>" % (i, attrs)
@@ -506,7 +595,90 @@ def render_scope(levels):
     return doc_open + doc_close, want
 
 
+def real_norm(op, out):
+    """outcome of a replay-driver case in the comparable form ['ok', value] | ['err'] | ['panic'] | None (document refused: not comparable)"""
+    if "panic" in out or "died" in out:
+        return ["panic"]
+    if "doc_err" in out:
+        return None
+    if not out.get("ok"):
+        return ["err"]
+    if op == "in_scope":
+        return ["ok", out.get("in_scope")]
+    if op == "expanded_name":
+        return ["ok", out.get("name")]
+    if op == "ns_history":
+        return ["ok", out.get("uri")]
+    return ["ok", out.get("value")]
+
+
+def tv_case(c):
+    """a worker's concrete representative -> (replay case, prediction of the model, what the specification fixes, projection)
+    all three outcomes in the form of real_norm; `proj` maps an outcome to the part the specification determines"""
+    al = Alias()
+    pred = c["pred"]
+    ident = lambda o: o  # noqa
+    if c["what"] == "scope":
+        doc, want = render_scope(c["levels"], al)
+        pv = None
+        if pred["kind"] == "ok":
+            pv = sorted([["xmlns" if p is None else al.out("p", p), al.out("u", u)] for p, u in pred["value"]])
+        return {"op": "in_scope", "input": doc}, ([pred["kind"], pv] if pred["kind"] == "ok" else [pred["kind"]]), ["ok", want], ident
+    if c["what"] == "expanded":
+        L, P = al("l", c["local"]), al("p", c["prefix"])
+        decls, bound = "", {}
+        for bp, bu in c["bindings"]:
+            if bp is None:
+                decls += " xmlns='%s'" % al("u", bu)
+                bound[None] = al("u", bu)
+            else:
+                decls += " xmlns:%s='%s'" % (al("p", bp), al("u", bu))
+                bound[al("p", bp)] = al("u", bu)
+        qn = (P + ":" + L) if P is not None else L
+        if c["node"] == "element":
+            doc = "<%s%s/>" % (qn, decls)
+            uri = bound.get(P)
+        else:
+            doc = "<r%s %s='v'/>" % (decls, qn)
+            uri = bound.get(P) if P is not None else None
+        pv = None
+        if pred["kind"] == "ok" and pred["value"] is not None:
+            l, pf, u = pred["value"]
+            pv = [al.out("l", l), al.out("p", pf), al.out("u", u)]
+        proj = lambda o: [o[0], [o[1][0], o[1][2]]] if (o and o[0] == "ok" and o[1]) else o  # noqa: local part and URI; the prefix slot is not specified
+        return ({"op": "expanded_name", "kind": c["node"], "input": doc}, ([pred["kind"], pv] if pred["kind"] == "ok" else [pred["kind"]]),
+                ["ok", [L, uri]], proj)
+    if c["what"] == "name-test":
+        NL, TL = al("l", c["node_local"]), al("l", c["test_local"])
+        NU, TP = al("u", c["node_uri"]), al("p", c["test_prefix"])
+        ns = [[al("p", bp), al("u", bu)] for bp, bu in c["bindings"]]
+        doc = ("<r xmlns:n='%s'><n:%s/></r>" % (NU, NL)) if NU is not None else ("<r><%s/></r>" % NL)
+        expr = "count(/*/%s)" % ((TP + ":" + TL) if TP is not None else TL)
+        if TP is None:
+            want = ["ok", "1" if (NL == TL and NU is None) else "0"]
+        else:
+            b = dict((a, b_) for a, b_ in ns)
+            want = ["ok", "1" if (NL == TL and NU is not None and NU == b[TP]) else "0"] if TP in b else ["err"]
+        pv = ["ok", "1" if pred["value"] else "0"] if pred["kind"] == "ok" else [pred["kind"]]
+        return {"op": "nametest", "doc": doc, "input": expr, "ns": ns}, pv, want, ident
+    if c["what"] == "bindings":
+        ops = [[op, al("p", p_), al("u", u)] for op, p_, u in c["ops"]]
+        Q = al("p", c["query"])
+        cur = None
+        for op, p_, u in ops:
+            if p_ == Q:
+                cur = u if op == "add" else None
+        pv = ["ok", al.out("u", pred["value"])] if pred["kind"] == "ok" else [pred["kind"]]
+        return {"op": "ns_history", "ops": ops, "query": Q}, pv, ["ok", cur], ident
+    raise KeyError(c["what"])
+
+
 def judge(case, out):
+    if case.get("expected_norm") is not None:
+        got = real_norm(case["op"], out)
+        if case["op"] == "expanded_name" and got and got[0] == "ok" and got[1]:
+            got = ["ok", [got[1][0], got[1][2]]]
+        return got != case["expected_norm"]
     if "panic" in out or "died" in out:
         return True
     if case.get("op") == "rebind":
@@ -514,6 +686,46 @@ def judge(case, out):
     if case.get("op") == "in_scope":
         return not (out.get("ok") and out.get("in_scope") == case["expected_in_scope"])
     return not (out.get("ok") and out.get("value") == case["expected_value"])
+
+
+def translator_validation(rp, rep, results, violated):
+    """every concrete representative (one per feasible path of every shape) goes through the compiled code; the compiled outcome must
+    be the one the S-kernel computed from the source.  A disagreement in which the compiled code also contradicts the specification
+    on that input is a violation shown on the real code; any other disagreement means the encoding misrepresents the code: inconclusive."""
+    n_ok, skipped, per = 0, 0, {}
+    mism, samples = [], []
+    for res in results:
+        for c in res.get("tv", []):
+            case, pred, want, proj = tv_case(c)
+            rr = rp.run(case)
+            got = real_norm(case["op"], rr)
+            if got is None:
+                skipped += 1
+                continue
+            if json.loads(json.dumps(got)) == json.loads(json.dumps(pred)):
+                n_ok += 1
+                if per.get(c["what"], 0) < 3:
+                    samples.append({"case": case, "compiled_and_model": got})
+                per[c["what"]] = per.get(c["what"], 0) + 1
+                continue
+            mism.append((c["what"], case, pred, got, want, proj(got) != want))
+    rep.tv_cases += n_ok
+    rep.extra["translator_validation"] = {"agreeing": n_ok, "per_obligation": per, "documents_refused_by_the_parser": skipped, "disagreeing": len(mism), "samples": samples,
+                                          "how": "one solver model per feasible path of every shape, renamed to printable names, run through /verif/replay (ops in_scope, expanded_name, nametest, ns_history) and compared with the outcome the S-kernel computed on that path"}
+    seen = set()
+    for what, case, pred, got, want, breaks_spec in mism:
+        oid = "C10.s.%s" % what
+        if breaks_spec and oid not in violated and oid not in seen:
+            seen.add(oid)
+            vc = dict(case, property="C10", expected_norm=want)
+            rep.violation(oid, vc, "on %s the compiled code answers %s, Namespaces in XML / XPath 1.0 give %s (the source-level model computed %s: found by translator validation)" % (
+                json.dumps(case, ensure_ascii=True)[:200], got, want, pred))
+            for o in rep.obligations:
+                if o["id"] == oid:
+                    o["status"] = "violated"
+        elif not breaks_spec:
+            rep.inconclusive.append("translator validation %s: the S-kernel computed %s, the compiled code %s on %s" % (oid, pred, got, json.dumps(case, ensure_ascii=True)[:200]))
+    return n_ok
 
 
 def main():
@@ -620,6 +832,11 @@ def main():
                 rep.inconclusive.append("%s: %d model witnesses (first %s) do not show on the probe queries" % (oid, len(g["bad"]), g["bad"][0]["witness"]))
         rep.obligation(oid, status, reach="sat", shapes=g["n"], holding=g["holds"], with_witness=len(g["bad"]), paths=g["paths"],
                        first_witness=g["bad"][0]["witness"] if g["bad"] else None)
+    try:
+        translator_validation(rp, rep, results, {v[0] for v in rep.violations})
+    except Exception:
+        import traceback
+        rep.inconclusive.append("translator validation failed: " + traceback.format_exc()[-500:])
     rp.close()
     return rep.finish()
 
